@@ -217,6 +217,18 @@ func framer(args []string) {
 			s := gen.Cat(pre, f, g)
 			victimize(s, [][2]int{{len(pre), len(pre) + len(f)}, {len(pre) + len(f), len(s)}}, i, fmt.Sprintf("len%d type%d", plen, typ))
 		}
+		// the start byte value at every early position of a frame (length byte, type bytes, first payload bytes)
+		for pos := 2; pos <= 9; pos++ {
+			for hi := 0; hi < 4; hi++ {
+				if pos != 2 && hi > 0 && !thorough {
+					continue
+				}
+				f := gen.FrameWithStartByteAt(rng, pos, hi)
+				pre, post := gen.Junk(rng, hi, 1), gen.Frame(rng, 1005, 19, 0)
+				s := gen.Cat(pre, f, post)
+				victimize(s, [][2]int{{len(pre), len(pre) + len(f)}}, pos+hi, fmt.Sprintf("d3@%d", pos))
+			}
+		}
 		// all 14 MSM types and 1005/1006 with short payloads 1..12
 		for _, typ := range append(append([]int{}, gen.MSMTypes...), 1005, 1006) {
 			for plen := 1; plen <= 12; plen++ {
@@ -321,6 +333,10 @@ func framer(args []string) {
 		for _, plen := range gen.Lens(rng, false, 4*scale) {
 			f := gen.Frame(rng, gen.TypeClass(rng, plen), plen, 0)
 			run(gen.Cat(f, f[:rng.Intn(len(f))]), fmt.Sprintf("len%d+tail", plen))
+		}
+		for pos := 2; pos <= 6; pos++ {
+			f := gen.FrameWithStartByteAt(rng, pos, pos%4)
+			run(gen.Cat(gen.Garbage(rng, rng.Intn(6)), f, f[:rng.Intn(len(f))]), fmt.Sprintf("d3@%d", pos))
 		}
 
 	case "c01":
